@@ -352,8 +352,8 @@ func vhValidPreReplay(p vhValidPre) {
 		all = append(all, e.topics...)
 	}
 	early := p.alpha[0].exp.Add(-1)
-	if early.After(p.now) {
-		early = p.now
+	if early.After(p.now) || verifParam("PREREPLAY", 0) == 2 {
+		early = p.now // PREREPLAY=2: the Replay happens now, when a prefix may already have expired
 	}
 	lid := p.alpha[0].msg.ID
 	if p.auto && p.first > 0 {
